@@ -483,11 +483,16 @@ def run(ctx, load):
 
 EXPLANATION = (
     'Decided: (a) descent-agreement — get, mem, set and rem all compare cmp(stored key, sought key) and map negative to the left child, '
-    'positive to the right child (decided by evaluating the branch conditions for c in {-1,0,1}); (b) mirror — the rotations and the '
-    'forward/backward cursor functions are mirror images under Left<->Right; (c) link-pairing — every child-link store is paired with the '
+    'positive to the right child (decided by evaluating the branch conditions for c in {-1,0,1}); (b) mirror — the forward/backward '
+    'cursor functions are mirror images under Left<->Right; (c) link-pairing — every child-link store is paired with the '
     'child\'s parent-link update on every path (NULL child excepted); the colour tag bit and the parent pointer share a word and setting '
     'one preserves the other; (d) absent keys raise KeyError / yield false; insert counts once and rebalances once, replace does neither, '
     'remove decrements once and frees exactly the unlinked node; (e) layout — node size, key/value/link offsets, node recovery from a key '
-    'cursor and the predecessor copy extent agree. NOT decided: the red-black colour and black-height invariants maintained by '
-    'Tree_Set_Fix / Tree_Rem_Fix (shape invariants over unbounded heaps), hence the height bound — a re-ordered recolouring step is out of '
-    'reach of these rules.')
+    'cursor and the predecessor copy extent agree; (f) rb-invariant — shape analysis (abstract interpretation of the source over '
+    'materialised nodes, summary subtrees of symbolic black height and an unexamined context, focused on demand): the loop invariants of '
+    'Tree_Set_Fix and Tree_Rem_Fix are inductive, every return leaves a valid red-black tree (links paired, no red-red, equal black '
+    'heights, compatible with the context, root black; for rem the unlinked node unchanged under a black parent), every iteration moves '
+    'strictly towards the root, no NULL node is accessed; (g) rb-operations — Tree_Set and Tree_Rem from an arbitrary node of a valid tree '
+    'raise with the tree untouched or leave a valid tree, using the fix-ups and Tree_Maximum through the contracts so established. NOT '
+    'decided: key order beyond the descent convention and the predecessor side (cmp is any of <0, 0, >0 in the shape analysis); payload '
+    'writes are trusted to stay off the link words (layout rule).')
